@@ -127,6 +127,29 @@ def run(tier, seed, replay=None):
     chk = Check("C18", tier, seed)
     model_ok = chk.proof_stage(["Report/Render.vo", "Agg/CheckFlow.vo", "Report/RenderProofs.vo", "Scope/TieProofs.vo"])
     rng = chk.rng
+    # ---- the text overview on an 80-column console (what rich assumes when the output is piped) for a large code base:
+    #      cells that do not fit are wrapped, never cropped — every figure and every delta stays readable
+    #      (seeded change C18-18: no_wrap on the numeric columns, cells cut with an ellipsis)
+    from codelimit.common.ScanResultTable import ScanResultTable
+    from rich.console import Console
+    for i in range(30 if tier == "quick" else 600):
+        langs = rng.sample(LANG_POOL, rng.choice([1, 2, 3, 4]))
+        cur = [(t[0],) + tuple(v * rng.choice([1, 1000, 12345]) for v in t[1:]) for t in gen_totals(rng, langs)]
+        prev = None if rng.random() < 0.2 else [(t[0],) + tuple(max(0, v - rng.choice([0, 1, 999, 54321])) for v in t[1:]) for t in cur]
+        try:
+            buf = io.StringIO()
+            Console(file=buf, width=80, color_system=None).print(ScanResultTable(scan_totals(cur), scan_totals(prev) if prev is not None else None))
+            text = buf.getvalue()
+        except Exception as ex:
+            chk.violation({"current": cur, "previous": prev}, f"rendering on an 80-column console raised {type(ex).__name__}: {ex}")
+            continue
+        chk.evaluations += 1
+        chk.count("text overview rendered on an 80-column console")
+        if "\u2026" in text:
+            chk.violation({"current": cur, "previous": prev, "rendered": text},
+                          "the text overview on an 80-column console crops cells with an ellipsis: " + [ln for ln in text.splitlines() if "\u2026" in ln][0].strip()[:120])
+        else:
+            chk.nontrivial.add(("narrow", i))
     cases = []
     for i in range(700 if tier == "quick" else 30000):
         langs = rng.sample(LANG_POOL, rng.choice([0, 1, 1, 2, 3, 4]))
